@@ -1,6 +1,8 @@
-"""Runs an E4 fragment (spec x lexer x LALR fixed point with abstract action evaluation) and turns
-its result into obligations of a check."""
+"""Runs E4 fragments (spec x lexer x LALR fixed point with abstract action evaluation) and turns their results into
+obligations of a check.  Several fragments of one check run in forked worker processes."""
 import importlib
+import multiprocessing as mp
+import os
 
 from ..core import AnalysisError
 from ..deriv import Explorer
@@ -16,7 +18,26 @@ RULES = {
 }
 
 
-def run_fragment(ck, ctx, module, label=None, self_attrs=None, only_rules=None, **build_kw):
+class Summary:
+    """picklable result of one fragment exploration"""
+
+    def __init__(self, spec_name, ex, oracle):
+        self.name = spec_name
+        self.findings = [(f.rule, f.key, f.detail, f.witness) for f in ex.findings.values()]
+        self.n_configs, self.n_trans, self.n_reductions = ex.n_configs, ex.n_trans, ex.n_reductions
+        self.n_actions_evaluated, self.n_unevaluated = ex.n_actions_evaluated, ex.n_unevaluated
+        self.unevaluated = list(ex.unevaluated)[:3]
+        self.max_depth = ex.max_depth
+        self.reduced_by = dict(ex.reduced_by.most_common(40))
+        self.samples = ex.samples[:6]
+        self.flags_touched = set(ex.flags_touched)
+        self.visited_lex = ex.visited_lex
+        self.checked = getattr(oracle, "checked", 0)
+        self.n_memo_hits = ex.n_memo_hits
+        self.n_split = ex.n_split_evaluations
+
+
+def _explore(ctx, module, label, self_attrs, build_kw):
     mod = importlib.import_module(f"sdpverif.specs.{module}")
     spec, oracle = mod.build(ctx, **build_kw)
     if label:
@@ -24,33 +45,87 @@ def run_fragment(ck, ctx, module, label=None, self_attrs=None, only_rules=None, 
     ex = Explorer(ctx, spec, oracle, self_attrs=self_attrs).explore()
     if hasattr(oracle, "finish"):
         oracle.finish(ex)
-    if ex.n_unevaluated:
-        raise AnalysisError(f"fragment {spec.name}: {ex.n_unevaluated} action evaluation(s) outside the interpreted subset: "
-                            + "; ".join(list(ex.unevaluated)[:3]))
+    return Summary(spec.name, ex, oracle)
+
+
+def _record(ck, sm, only_rules=None):
+    if sm.n_unevaluated:
+        raise AnalysisError(f"fragment {sm.name}: {sm.n_unevaluated} action evaluation(s) outside the interpreted subset: "
+                            + "; ".join(sm.unevaluated))
     by_rule = {}
-    for (rule, key), f in ex.findings.items():
+    for rule, key, detail, witness in sm.findings:
         if only_rules is not None and rule not in only_rules:
             continue
-        by_rule.setdefault(rule, []).append(f)
-        ck.ob(rule, key, False, f.detail, f"fragment {spec.name}", witness=f.witness)
-    counts = {"O-accept": ex.n_trans, "O-segment": ex.n_reductions, "O-value": getattr(oracle, "checked", 0),
-              "O-raise": ex.n_actions_evaluated, "O-case": ex.n_trans, "O-uniform": ex.n_trans + ex.n_actions_evaluated,
-              "O-final": getattr(oracle, "checked", 0)}
+        by_rule.setdefault(rule, []).append(key)
+        ck.ob(rule, key, False, detail, f"fragment {sm.name}", witness=witness)
+    counts = {"O-accept": sm.n_trans, "O-segment": sm.n_reductions, "O-value": sm.checked, "O-raise": sm.n_actions_evaluated,
+              "O-case": sm.n_trans, "O-uniform": sm.n_trans + sm.n_actions_evaluated, "O-final": sm.checked}
     for rule, text in RULES.items():
         if only_rules is not None and rule not in only_rules:
             continue
         if rule not in by_rule:
-            ck.ob(rule, f"{spec.name}: all {counts[rule]} instances", True,
-                  f"{text} ({counts[rule]} instances in {ex.n_configs} configurations)", f"fragment {spec.name}")
-    ck.states += ex.n_configs
-    ck.transitions += ex.n_trans
-    ck.count("fragment_configurations", ex.n_configs)
-    ck.count("fragment_transitions", ex.n_trans)
-    ck.count("reductions", ex.n_reductions)
-    ck.count("actions_abstractly_evaluated", ex.n_actions_evaluated)
-    ck.count("value_checks", getattr(oracle, "checked", 0))
-    ck.analysed[f"max_lr_stack_depth[{spec.name}]"] = ex.max_depth
-    ck.analysed[f"actions_reducing[{spec.name}]"] = dict(ex.reduced_by.most_common(40))
-    for smp in ex.samples[:6]:
-        ck.samples_extra.append({"fragment": spec.name, **smp})
-    return ex
+            ck.ob(rule, f"{sm.name}: all {counts[rule]} instances", True,
+                  f"{text} ({counts[rule]} instances in {sm.n_configs} configurations)", f"fragment {sm.name}")
+    ck.states += sm.n_configs
+    ck.transitions += sm.n_trans
+    ck.count("fragment_configurations", sm.n_configs)
+    ck.count("fragment_transitions", sm.n_trans)
+    ck.count("reductions", sm.n_reductions)
+    ck.count("actions_abstractly_evaluated", sm.n_actions_evaluated)
+    ck.count("action_evaluations_served_from_memo", sm.n_memo_hits)
+    ck.count("per_exemplar_evaluations", sm.n_split)
+    ck.count("value_checks", sm.checked)
+    ck.analysed[f"max_lr_stack_depth[{sm.name}]"] = sm.max_depth
+    ck.analysed[f"actions_reducing[{sm.name}]"] = sm.reduced_by
+    for smp in sm.samples:
+        ck.samples_extra.append({"fragment": sm.name, **smp})
+
+
+class _Ex:
+    """what callers of run_fragment use of the explorer"""
+
+    def __init__(self, sm):
+        self.flags_touched, self.visited_lex = sm.flags_touched, sm.visited_lex
+        self.n_configs, self.n_trans = sm.n_configs, sm.n_trans
+
+
+def run_fragment(ck, ctx, module, label=None, self_attrs=None, only_rules=None, **build_kw):
+    sm = _explore(ctx, module, label, self_attrs, build_kw)
+    _record(ck, sm, only_rules)
+    return _Ex(sm)
+
+
+_JOBS = None
+
+
+def _job(i):
+    ctx, jobs = _JOBS
+    j = jobs[i]
+    try:
+        return ("ok", _explore(ctx, j["module"], j.get("label"), j.get("self_attrs"), j.get("build_kw", {})))
+    except AnalysisError as e:
+        return ("analysis-error", str(e))
+
+
+def run_fragments(ck, ctx, jobs):
+    """jobs: [{module, label?, self_attrs?, only_rules?, build_kw?}]; explored in forked workers, recorded in order"""
+    global _JOBS
+    # build the shared engines before forking
+    ctx.model, ctx.callgraph, ctx.grammar, ctx.lexer
+    n = min(len(jobs), os.cpu_count() or 2, 12)
+    if n <= 1:
+        results = []
+        _JOBS = (ctx, jobs)
+        results = [_job(i) for i in range(len(jobs))]
+    else:
+        _JOBS = (ctx, jobs)
+        with mp.get_context("fork").Pool(n) as pool:
+            results = pool.map(_job, range(len(jobs)), chunksize=1)
+    _JOBS = None
+    out = []
+    for j, (status, payload) in zip(jobs, results):
+        if status != "ok":
+            raise AnalysisError(payload)
+        _record(ck, payload, j.get("only_rules"))
+        out.append(_Ex(payload))
+    return out
